@@ -1,0 +1,10 @@
+//go:build verif
+
+package collect
+
+import "context"
+
+// VerifC07CheckAlloc exports InMemCollector.checkAlloc (the memory-pressure check the monitor
+// goroutine runs on its ticker). Workers must be running (not parked): checkAlloc hands each of
+// them a sendEarly request and waits for all of them.
+func (i *InMemCollector) VerifC07CheckAlloc() { i.checkAlloc(context.Background()) }
